@@ -63,6 +63,9 @@ type Fn struct {
 	// re-entrant user code: during execution Exec the body calls
 	// <scope>.Invoke(function Fn) and ignores the error it returns
 	Nested []Nested `json:"nested"`
+	// the error result is declared as the concrete type *UserErr instead of error (only for
+	// functions whose every execution fails: a typed nil would count as a failure)
+	ErrConcrete bool `json:"err_concrete"`
 }
 
 type Nested struct {
@@ -171,9 +174,26 @@ type Trace struct {
 
 // ---------- user errors and panics ----------
 
-type UserErr struct{ Fn, Exec int }
+// UserErr is the error a user function returns.  Half of them wrap another error (as
+// fmt.Errorf("...: %w", cause) does): dig.RootCause must report the error the function
+// returned, not what that error wraps.
+type UserErr struct {
+	Fn, Exec int
+	Inner    error
+}
 
 func (e *UserErr) Error() string { return fmt.Sprintf("user error fn=%d exec=%d", e.Fn, e.Exec) }
+func (e *UserErr) Unwrap() error { return e.Inner }
+
+var errInnerCause = errors.New("inner cause wrapped by a user error")
+
+func newUserErr(fn, exec int) *UserErr {
+	u := &UserErr{Fn: fn, Exec: exec}
+	if (fn+exec)%2 == 1 {
+		u.Inner = errInnerCause
+	}
+	return u
+}
 
 type UserPanic struct{ Fn, Exec int }
 
@@ -424,8 +444,11 @@ func readArgs(p Param, v reflect.Value, out *[]Arg) {
 
 func mkValue(t reflect.Type, p *Prov) reflect.Value {
 	if t.Kind() == reflect.Interface {
-		// a function declared to return an interface type: box a T15
-		return mkValue(palette[numStructTypes-1], p).Convert(t)
+		// a function declared to return an interface type: box a TE, whose dynamic type ALSO has an
+		// Error method (dig must look for errors at declared error positions only)
+		v := reflect.New(reflect.TypeOf(TE{})).Elem()
+		v.Field(0).Set(reflect.ValueOf(Base{P: p}))
+		return v.Convert(t)
 	}
 	if t.Kind() == reflect.Slice {
 		return reflect.Append(reflect.MakeSlice(t, 0, 1), mkValue(t.Elem(), p))
@@ -525,7 +548,11 @@ func (r *runner) makeFunc(f *Fn, role string) reflect.Value {
 		out = append(out, resultType(rs, dec))
 	}
 	if f.Err {
-		out = insertAt(out, errPos(f), errType)
+		et := errType
+		if f.ErrConcrete && r.planAt(f, 0) == "err" {
+			et = reflect.TypeOf(&UserErr{})
+		}
+		out = insertAt(out, errPos(f), et)
 	}
 	ft := reflect.FuncOf(in, out, f.Variadic)
 	return reflect.MakeFunc(ft, func(args []reflect.Value) []reflect.Value {
@@ -574,7 +601,15 @@ func (r *runner) body(f *Fn, role string, args []reflect.Value) []reflect.Value 
 		if f.Err {
 			ev := reflect.Zero(errType)
 			if plan == "err" {
-				ev = reflect.ValueOf(&UserErr{f.ID, e}).Convert(errType)
+				ev = reflect.ValueOf(newUserErr(f.ID, e)).Convert(errType)
+			}
+			if f.ErrConcrete && r.planAt(f, 0) == "err" {
+				// the error result is DECLARED as the concrete type *UserErr (it implements error)
+				if plan == "err" {
+					ev = reflect.ValueOf(newUserErr(f.ID, e))
+				} else {
+					ev = reflect.Zero(reflect.TypeOf(&UserErr{}))
+				}
 			}
 			res = insertAt(res, errPos(f), ev)
 		}
@@ -671,6 +706,9 @@ func verdictOf(err error) Verdict {
 	var chain []error
 	for e := err; e != nil; e = errors.Unwrap(e) {
 		chain = append(chain, e)
+		if _, user := e.(*UserErr); user {
+			break // what a user error itself wraps is not part of dig's chain
+		}
 		if len(chain) > 10000 {
 			break
 		}
@@ -700,7 +738,12 @@ func verdictOf(err error) Verdict {
 	if len(msg) > 300 {
 		msg = msg[:300]
 	}
-	return Verdict{V: "err", Chain: names, Root: rootOf(last), Flags: fl, Msg: msg}
+	root := rootOf(last)
+	if !fl.RootSame && root != nil && (root.K == "user" || root.K == "panic") {
+		// a failure of user code: what counts is what dig.RootCause reports for it
+		root = rootOf(rc)
+	}
+	return Verdict{V: "err", Chain: names, Root: root, Flags: fl, Msg: msg}
 }
 
 // sameErr compares two errors without panicking on uncomparable dynamic types.
